@@ -5,6 +5,7 @@ import (
 	"flag"
 	"fmt"
 	"os"
+	"os/exec"
 	"path/filepath"
 	"regexp"
 	"sort"
@@ -281,6 +282,17 @@ func cmdProp(args []string) {
 			}
 		}
 	}
+	// bounded stand-ins: functions outside the verifier's reach get a bounded in-package check (never counted as proved)
+	bounded := e.runBounded(*id, *repo, *verif)
+	var boundedDesc []string
+	for _, b := range bounded {
+		boundedDesc = append(boundedDesc, fmt.Sprintf("%s: %s [bounded check %s: %s]", b.Func, b.Bound, b.File, b.Status))
+		if b.Failed {
+			violations++
+			rp := writeReplay(replayDir, "bounded_"+b.Func, map[string]interface{}{"property": *id, "obligation": "bounded:" + b.Func, "bound": b.Bound, "replay_output": b.Output, "replay_failed_on_real_code": true, "replay_harness": b.File})
+			fmt.Printf("VIOLATION property=%s replay=%s obligation=bounded:%s\n", *id, rp, b.Func)
+		}
+	}
 	sort.Strings(knownLines)
 	seenK := map[string]bool{}
 	for _, l := range knownLines {
@@ -317,7 +329,7 @@ func cmdProp(args []string) {
 		"known_findings_reported":   len(seenK),
 		"failed_obligations":        failedNames,
 		"contract_files":            relFiles(e.cs.Files, *repo),
-		"bounded_stand_ins":         []string{},
+		"bounded_stand_ins":         boundedDesc,
 	}
 	assumptions := append([]string{
 		"integers are mathematical (no overflow) unless an explicit no-overflow obligation is listed",
@@ -456,6 +468,54 @@ func (e *Engine) lemmaObligations(id string, keys []string) []*Obligation {
 			ob.Script = e.script(ob)
 			out = append(out, ob)
 		}
+	}
+	return out
+}
+
+type boundedRun struct {
+	Func, Bound, File, Status, Output string
+	Failed                            bool
+}
+
+// runBounded executes /verif/bounded/<id>/*.go (in-package tests injected with -overlay). Headers:
+//   // bounded-pkg: memmetrics      // bounded-func: <function standing in for>      // bounded-bound: <stated bound>
+func (e *Engine) runBounded(id, repo, verif string) []boundedRun {
+	files, _ := filepath.Glob(filepath.Join(verif, "bounded", id, "*.go"))
+	var out []boundedRun
+	for _, f := range files {
+		src, err := os.ReadFile(f)
+		if err != nil {
+			continue
+		}
+		get := func(key string) string {
+			m := regexp.MustCompile(`(?m)^// ` + key + `:\s*(.+)$`).FindStringSubmatch(string(src))
+			if m == nil {
+				return ""
+			}
+			return strings.TrimSpace(m[1])
+		}
+		pkg := get("bounded-pkg")
+		if pkg == "" {
+			continue
+		}
+		scratch, _ := os.MkdirTemp("", "bounded")
+		target := filepath.Join(repo, pkg, "zz_verif_bounded_test.go")
+		ovb, _ := json.Marshal(map[string]interface{}{"Replace": map[string]string{target: f}})
+		ovf := filepath.Join(scratch, "overlay.json")
+		os.WriteFile(ovf, ovb, 0o644)
+		cmd := exec.Command("go", "test", "-overlay", ovf, "-vet=off", "-count=1", "-timeout", "120s", "-run", "TestVerifBounded", "./"+pkg)
+		cmd.Dir = repo
+		cmd.Env = append(os.Environ(), "GOFLAGS=-mod=mod", "GOPROXY=off", "GOSUMDB=off", "GOTOOLCHAIN=local")
+		o, err := cmd.CombinedOutput()
+		os.RemoveAll(scratch)
+		b := boundedRun{Func: get("bounded-func"), Bound: get("bounded-bound"), File: strings.TrimPrefix(f, verif+"/"), Output: tail(string(o), 3000)}
+		if err != nil {
+			b.Failed = true
+			b.Status = "FAILED"
+		} else {
+			b.Status = "passed"
+		}
+		out = append(out, b)
 	}
 	return out
 }
